@@ -33,13 +33,13 @@ ASSUMPTIONS = [
 FLOORS = {
     'quick': {'lr_grown': 4000, 'pc_compared': 4000, 'gen_compared': 1500, 'kind:direct': 15, 'kind:aliased': 15,
               'kind:mutual': 15, 'kind:optprefix': 15, 'kind:named': 15, 'kind:right': 10, 'kind:both': 10,
-              'unary': 15, 'parens': 30, 'with_cut': 15},
+              'unary': 15, 'parens': 30, 'with_cut': 15, 'kind:direct_alias': 10, 'kind:override_group': 10, 'kind:optwrap': 10, 'callatom': 15},
     'thorough': {'lr_grown': 100000, 'pc_compared': 100000, 'gen_compared': 30000},
 }
 PEAK_COUNTERS = ('max_growth', 'max_ref_depth')
 N = {'quick': 192, 'thorough': 3200}
 
-KINDS = ['direct', 'aliased', 'mutual', 'optprefix', 'named', 'right', 'both', 'mutual2']
+KINDS = ['direct', 'aliased', 'mutual', 'optprefix', 'named', 'right', 'both', 'mutual2', 'direct_alias', 'override_group', 'optwrap']
 OPS = ['+', '*', '-', '/']
 
 
@@ -58,8 +58,9 @@ class Spec:
         for i in range(self.nlayers):
             kind = rng.choice(KINDS if rng.random() < 0.8 else ['direct', 'named', 'aliased'])
             self.layers.append({'kind': kind, 'op': ops[i], 'cut': rng.random() < 0.25,
-                                'unary': rng.random() < 0.2, 'op2': rng.choice(OPS)})
+                                'unary': rng.random() < 0.2, 'op2': rng.choice([o for o in OPS if o != ops[i]])})
         self.parens = rng.random() < 0.6
+        self.callatom = rng.random() < 0.2     # atom 'f' '(' ','.{e0} ')' : a gather of a left-recursive element
         self.eof = rng.random() < 0.5
         names = [f'e{i}' for i in range(self.nlayers)] + [f'x{i}' for i in range(self.nlayers)] + ['atom', 'num', 'start']
         pool = ['a', 'b', 'c', 'd', 'f', 'g', 'h', 'k', 'm', 'p', 'q', 'r', 's', 'w', 'y', 'z']
@@ -74,10 +75,12 @@ class Spec:
                 a.append('-')
             if l['kind'] == 'optprefix' and '-' not in a:
                 a.append('-')
-            if l['kind'] == 'mutual2' and l['op2'] not in a:
+            if l['kind'] in ('mutual2', 'direct_alias') and l['op2'] not in a:
                 a.append(l['op2'])
-        if self.parens:
+        if self.parens or self.callatom:
             a += ['(', ')']
+        if self.callatom:
+            a += ['f', ',']
         return a
 
     def grammar(self):
@@ -109,6 +112,14 @@ class Spec:
                 opts += [L.Seq((L.Opt(L.Tok('-')), C(e), *op, C(nxt))), C(nxt)]
             elif k == 'named':
                 opts += [L.Seq((L.Named('l', C(e)), L.Named('op', L.Tok(l['op'])), *op[1:], L.Named('r', C(nxt)))), C(nxt)]
+            elif k == 'direct_alias':
+                # the same rule is left recursive directly AND through an alias
+                rules.append(L.Rule(x, C(e)))
+                opts += [L.Seq((C(e), *op, C(nxt))), L.Seq((C(x), L.Tok(l['op2']), C(nxt))), C(nxt)]
+            elif k == 'override_group':
+                opts += [L.Over(L.Group(L.Seq((C(e), *op, C(nxt))))), C(nxt)]
+            elif k == 'optwrap':
+                opts = opts + [L.Seq((L.Opt(L.Seq((C(e), *op))), C(nxt)))]
             elif k == 'right':
                 opts += [L.Seq((C(nxt), *op, C(e))), C(nxt)]
             elif k == 'both':
@@ -117,6 +128,8 @@ class Spec:
         atom_opts = []
         if self.parens:
             atom_opts.append(L.Seq((L.Tok('('), L.Call(nm['e0']), L.Tok(')'))))
+        if self.callatom:
+            atom_opts.append(L.Seq((L.Tok('f'), L.Tok('('), L.Join(L.Tok(','), L.Call(nm['e0']), False, True), L.Tok(')'))))
         atom_opts.append(L.Call(nm['num']))
         rules.append(L.Rule(nm['atom'], L.Choice(tuple(atom_opts)) if len(atom_opts) > 1 else atom_opts[0]))
         rules.append(L.Rule(nm['num'], L.Pat(r'\d')))
@@ -126,7 +139,8 @@ class Spec:
         return L.Grammar([start] + rules)
 
     def pc_applicable(self):
-        return all(l['kind'] not in ('optprefix', 'mutual2') for l in self.layers)
+        return all(l['kind'] not in ('optprefix', 'mutual2') and not (l['kind'] == 'optwrap' and l['unary'])
+                   for l in self.layers)
 
 
 # ------------------------------------------------- precedence-climbing oracle
@@ -195,15 +209,21 @@ class PC:
             seed = self.layer(i + 1, p)
         q, v = seed
         while True:
-            try:
-                q2 = self.tok(q, l['op'])
-                q2, r = self.layer(i if k == 'both' else i + 1, q2)
-            except PCFail:
+            used = None
+            for op in ([l['op'], l['op2']] if k == 'direct_alias' else [l['op']]):
+                try:
+                    q2 = self.tok(q, op)
+                    q2, r = self.layer(i if k == 'both' else i + 1, q2)
+                    used = op
+                    break
+                except PCFail:
+                    continue
+            if used is None:
                 break
             if k == 'named':
-                v = {'l': v, 'op': l['op'], 'r': r}
+                v = {'l': v, 'op': used, 'r': r}
             else:
-                v = [v, l['op'], r]
+                v = [v, used, r]
             q = q2
         return q, v
 
@@ -216,10 +236,38 @@ class PC:
                 return q, ['(', v, ')']
             except PCFail:
                 pass
+        if self.s.callatom:
+            try:
+                q = self.tok(p, 'f')
+                q = self.tok(q, '(')
+                items, q = self.gather(q)
+                q = self.tok(q, ')')
+                return q, ['f', '(', items, ')']
+            except PCFail:
+                pass
         p = self.ws(p)
         if p < len(self.t) and self.t[p].isdigit() and self.t[p].isascii():
             return p + 1, self.t[p]
         raise PCFail
+
+    def gather(self, p):
+        """','.{e0}  ==  ','.{e0}+ | {} : a failure after a separator fails the positive gather, then the empty closure applies"""
+        try:
+            q, v = self.layer(0, p)
+        except PCFail:
+            return [], p
+        items = [v]
+        while True:
+            try:
+                q2 = self.tok(q, ',')
+            except PCFail:
+                return items, q
+            try:
+                q2, v = self.layer(0, q2)
+            except PCFail:
+                return [], p
+            items.append(v)
+            q = q2
 
     def run(self):
         try:
@@ -280,6 +328,8 @@ def check_grammar(acc, spec, g, rng, tier, origin):
             acc.count('with_cut')
     if spec.parens:
         acc.count('parens')
+    if spec.callatom:
+        acc.count('callatom')
     if case.model is None:
         acc.evaluations += 1
         acc.violation('exc:build:' + case.build_error[0], f'model construction failed: {case.build_error} for {L.grammar_text(g)!r}',
@@ -327,6 +377,11 @@ def check_grammar(acc, spec, g, rng, tier, origin):
                               f'{L.grammar_text(g)!r} input {text!r} REF={a} TATSU={b}',
                               D.witness(g, start, text, a, b, r, origin=origin))
                 continue
+            if tag == 'ast' and 'open-list-rule-value' in r.triggers:
+                acc.violation('ast/trigger:open-list-rule-value',
+                              f'a rule value that is an open list (override of a group) is spliced into its caller: '
+                              f'{L.grammar_text(g)!r} input {text!r} REF={a} TATSU={b}', D.witness(g, start, text, a, b, r, origin=origin))
+                continue
             sig = f'{tag}/' + '+'.join(sorted({l["kind"] for l in spec.layers}))
             acc.violation(sig, f'left-recursive parse differs from seed growing ({tag}): {L.grammar_text(g)!r} input {text!r} REF={a} TATSU={b}',
                           D.witness(g, start, text, a, b, r, origin=origin))
@@ -347,6 +402,11 @@ def check_grammar(acc, spec, g, rng, tier, origin):
                         # the two oracles disagree with each other: harness doubt, not a verdict
                         acc.count('oracle_disagreement')
                         acc.note(f'PC vs REF disagree on {L.grammar_text(g)!r} {text!r}: PC={cc} REF={a}')
+                    elif 'open-list-rule-value' in r.triggers and cc[:2] == b[:2]:
+                        acc.violation('ast/trigger:open-list-rule-value',
+                                      f'a rule value that is an open list (override of a group) is spliced into its caller: '
+                                      f'{L.grammar_text(g)!r} input {text!r} expected {cc} got {b}',
+                                      D.witness(g, start, text, cc, b, r, origin=origin))
                     else:
                         acc.violation('pc/' + '+'.join(sorted({l["kind"] for l in spec.layers})),
                                       f'not the left-associative tree over the longest prefix: {L.grammar_text(g)!r} input {text!r} expected {cc} got {b}',
@@ -366,10 +426,14 @@ def check_grammar(acc, spec, g, rng, tier, origin):
             m_out = model_plain(case, g, start, text)
             g_out = gen_plain(gen, g, start, text)
             acc.count('gen_compared')
+            if 'named-not-single' in r.triggers and m_out[0] == g_out[0]:
+                g_out = m_out   # C02's recorded naming defect of generated code (@:(group)): accept/reject still compared
             # one long-lived parser object across all inputs of this grammar (left-recursion tables must not leak)
             if reused is None:
                 reused = gen()
             r_out = plain(lambda t, **kw: reused.parse(t, start=start, **kw), g, text)
+            if 'named-not-single' in r.triggers and r_out[0] == g_out[0]:
+                r_out = g_out   # same recorded naming defect: the bound "last node" is not a function of the input alone
             if r_out != g_out:
                 acc.violation('gen-reused-object/' + '+'.join(sorted({l["kind"] for l in spec.layers})),
                               f'a reused generated parser object differs from a fresh one on a left-recursive grammar '
